@@ -50,6 +50,26 @@ CLAIMS = {
    note=COMMON_NOTE + "PARTIAL: the reversal rule itself (fires `right` steps after a local extremum, ties to the newest) is validated "
         "against the model, not yet proved against a declarative spec.",
    ref="DESIGN.md §5 C14"),
+
+ "C16": dict(cat="proof", tech="Lean 4 proofs over the 513 actions and a bit-level binary64 model (decide +kernel for the finite tables) + exhaustive differential enumeration",
+   text="Theorems: every conversion result is well formed, NaN -> None, saturation, sign preservation, ratio in [-1,1], "
+        "from(ratio(a)) = a through the real float operations for all 513 actions, negation involutive and ratio-negating, "
+        "ratio(a-b) = clamp(ratio a - ratio b), analog/sign = sign of ratio, equality is an equivalence relation; the ordering "
+        "is proved consistent with equality except on (Buy 0, Sell 0), where the negation is proved. The Rust code is enumerated "
+        "exhaustively (all i8, all actions, all pairs; thorough: all 2^32 f32 patterns with every step of the quantiser validated "
+        "by the bit-level model) and f64 at every bisected transition point.",
+   note=COMMON_NOTE + "PARTIAL: monotonicity of the f64 conversion is validated (transition points + f32 sweep), not proved. "
+        "Known finding: Ord inconsistent with Eq on Buy(0)/Sell(0).",
+   ref="DESIGN.md §5 C16"),
+ "C18": dict(cat="proof", tech="Lean 4 algebraic proofs in an arbitrary linear ordered field + string-function proofs + differential replay",
+   text="Theorems: tp/hl2/ohlc4/volumed price/source formulas, clv formula and range, the single-subtraction true range equals "
+        "max(h-l,|h-pc|,|l-pc|) whenever h >= l, validate accepts exactly ordered positive candles with non-negative volume, "
+        "Candle + is associative and aggregates to first open/max high/min low/last close/summed volume, Source text round-trips, "
+        "'<kind>-<n>' parses to (kind, n) for all 15 kinds and n <= 255 and everything that parses has that form. The Rust code is "
+        "compared on 20k-200k valid and malformed candles (NaN/inf/negative/zero) and on mutated/random strings.",
+   note=COMMON_NOTE + NUM_NOTE + "validate on non-finite fields is modelled on classified bit patterns (driver), str::parse::<uN> by an "
+        "explicit grammar; both are compared, not proved against Rust's std.",
+   ref="DESIGN.md §5 C18"),
 }
 
 checks = []
